@@ -131,3 +131,15 @@ pub struct UnitOnlyHolder {
     #[cli(subcommand)]
     which: UnitOnly,
 }
+
+/// A long name of a single character (the dashes belong to the kind of the name, not to its length)
+#[derive(ArgParse, Debug, Eq, PartialEq)]
+#[cli(help_path = "one-char-long")]
+pub struct OneCharLong {
+    /// long only, one character
+    #[cli(long = "x")]
+    x: Option<i64>,
+    /// a short alias beside a long name of one character
+    #[cli(short = "y", long = "z")]
+    y: bool,
+}
